@@ -25,7 +25,10 @@ package dkg
 //   - admission: at every Receive the proxy compares the history length before
 //     and after; a message that is not (current session, operating sender other
 //     than the receiver, signed with that sender's operator key) must not make
-//     the history grow. The histories are scanned again after the run.
+//     the history grow, and a message that is all of that must make it grow
+//     in every state of the chain, whatever its phase (a state that drops an
+//     early later-phase message would leave the group hanging). The histories
+//     are scanned again after the run.
 //   - agreement: all operating members complete, output the same public key,
 //     the same misbehaved list, and that list equals the exclusion set.
 //   - algebra: Ks = {seed + original index} of the operating members, every
@@ -402,7 +405,7 @@ type c07Obs struct {
 	admitted     int
 	foreign      map[string]int // class -> receives
 	foreignAdm   []string       // violations: class@state
-	legitDropped int
+	legitDropped []string // state types that dropped a legitimate message
 	lagReceives  int
 	maxLag       int
 	dupDelivered int
@@ -508,7 +511,12 @@ func (p *c07Proxy) Receive(msg net.Message) error {
 	switch class {
 	case "":
 		if !grew {
-			o.legitDropped++
+			// every state of the key-generation chain (states.go: ephemeral
+			// keys, symmetric keys, TSS rounds one..three, finalization)
+			// stores every accepted `message` with ReceiveToHistory whatever
+			// its phase; no state is exempt
+			o.legitDropped = append(o.legitDropped, fmt.Sprintf("%T", p.inner))
+			p.env.abort()
 		}
 		if lag := c07StateOfType(msg.Type()) - p.stateNo; lag > 0 {
 			o.lagReceives++
@@ -877,7 +885,12 @@ func c07Judge(r *verifkit.Run, pl *c07Plan, rr *c07RunResult) (nontrivial bool) 
 			r.Count("injected_sent:"+c, int64(k))
 		}
 		lagReceives += ob.lagReceives
-		legitDropped += ob.legitDropped
+		legitDropped += len(ob.legitDropped)
+		for _, st := range ob.legitDropped {
+			viol("history:legit-dropped:"+st,
+				fmt.Sprintf("member %d: state %s was handed a legitimate protocol message (current session, operating sender, that sender's key) and did not store it in the message history", o.id, st),
+				map[string]interface{}{"member": o.id, "excluded": pl.excluded})
+		}
 		r.Count("receives", int64(ob.receives))
 		r.Count("admitted", int64(ob.admitted))
 		r.Count("lagging_receives", int64(ob.lagReceives))
